@@ -49,6 +49,7 @@ import (
 	"go/token"
 	"go/types"
 	"log"
+	"runtime/debug"
 	"os"
 	"reflect"
 	"runtime"
@@ -669,6 +670,9 @@ func runFrame(fr *frame) {
 		fr.panic = r
 		if X.active && X.panicStack == nil {
 			X.panicStack = X.stack(14)
+			if HostStack {
+				fmt.Fprintf(os.Stderr, "HOST PANIC ORIGIN %v\n%s\n", r, debug.Stack())
+			}
 		}
 		fr.runDefers()
 		fr.block = fr.fn.Recover
@@ -785,6 +789,7 @@ func newInterpreter(prog *ssa.Program, sizes types.Sizes) *interpreter {
 }
 
 var extCache = map[*ssa.Function]externalFn{}
+var envSize = map[*ssa.Function]int{}
 var fnCount map[*ssa.Function]int
 
 // onlyLoaded reports whether every use of the address is a plain load.
